@@ -26,6 +26,12 @@ HEADINGS = [
     "# ** not bold **", "## *__italic bold__*", "# **Bold** \\", "Setext **bold**\n===", "**Setext all bold**\n---",
     "> # **Quoted bold heading**", "- # **Heading in item**\n\n  text", "# **bold**text", "###### ***x***", "# ~~**struck bold**~~",
 ]
+LIST_DOCS = [   # authored-loose / authored-tight lists whose items hold several blocks, with and without blank lines inside the item
+    ("loose_nested", "- a\n  - x\n\n- b\n  - y\n"), ("loose_quote_in_item", "1. a\n   > q\n\n2. b\n"), ("loose_code_in_item", "- a\n  ```\n  c\n  ```\n\n- b\n"),
+    ("tight_nested", "- a\n  - x\n- b\n  - y\n"), ("loose_multi_para", "- a\n\n  second\n\n- b\n"), ("in_quote", "> - a\n>   - x\n>\n> - b\n"),
+    ("loose_single", "- a\n\n- b\n\n- c\n"), ("tight_single", "* a\n* b\n* c\n"), ("mixed_depth", "1. one\n   - in one\n\n     para\n2. two\n"),
+    ("footnote_list", "x[^1]\n\n[^1]: note\n\n    - f a\n\n    - f b\n"), ("task_loose", "- [ ] a\n\n- [x] b\n"), ("three_levels", "- a\n  - b\n    - c\n\n    - d\n  - e\n- f\n"),
+]
 ITEM_RE = re.compile(r"^(?:[-*+]|\d+[.)])(?: |$)")
 
 
@@ -106,7 +112,13 @@ def _spacing(job):
             gaps.append(dict(g0=a, g1=b, item=bool(ITEM_RE.match(strip_containers(nb0[j + 1])))))
     l0, l1 = lists_of(project.parse_marko(o0)), lists_of(project.parse_marko(o1))
     aligned = len(l0) == len(l1) and all(a["n"] == b["n"] for a, b in zip(l0, l1))
-    lists = [dict(n=a["n"], single=a["single"], t0=a["tight"], t1=b["tight"]) for a, b in zip(l0, l1)] if aligned else []
+    try:
+        lin = lists_of(project.parse_marko(x))
+    except BaseException:  # noqa: BLE001
+        lin = []
+    if not (len(lin) == len(l0) and all(a["n"] == b["n"] for a, b in zip(lin, l0))):
+        lin = l0                      # the input's lists do not align with the output's: fall back to the preserve reading
+    lists = [dict(n=a["n"], single=a["single"], t0=a["tight"], t1=b["tight"], tin=c["tight"]) for a, b, c in zip(l0, l1, lin)] if aligned else []
     return dict(o0=o0, o1=o1, same_nonblank=same and aligned, gaps=gaps, lists=lists)
 
 
@@ -142,7 +154,7 @@ def run(tier: str) -> int:
     bases_r = [dict(width=w, semantic=sem, cleanups=False, smartquotes=sq, ellipses=sq) for w in ((40, 0) if tier == "quick" else (88, 40, 20, 0))
                for sem in (False, True) for sq in (False, True)]
     sjobs = [(n, x, b, m) for n, x in xs for b in bases_s for m in ("loose", "tight", "preserve")]
-    sjobs += [(n, x, b, m) for n, x in corpus.RICH for b in bases_r for m in ("loose", "tight", "preserve")]
+    sjobs += [(n, x, b, m) for n, x in corpus.RICH + LIST_DOCS for b in bases_r for m in ("loose", "tight", "preserve")]
     traces, metas = [], {}
     tid = 0
     for job, r in zip(sjobs, pmap(_spacing, sjobs, chunksize=50)):
